@@ -233,11 +233,21 @@ pub fn hostile_rooted_doc() -> BoxedStrategy<String> {
 }
 
 fn fam_hostile(_t: Tier) -> BoxedStrategy<Case> {
-    (vec(hpick(), 1..6), gen::cfg_hostile(), prop::bool::weighted(0.8), crate::props::union::root_attrs(), any::<bool>())
-        .prop_map(|(picks, cfg, rooted, ra, with_ra)| {
+    (vec(hpick(), 1..6), gen::cfg_hostile(), prop::bool::weighted(0.8), crate::props::union::root_attrs(), any::<bool>(), 0u8..24)
+        .prop_map(|(picks, cfg, rooted, ra, with_ra, junk)| {
             let mut input = hostile_doc(&picks, rooted);
             if rooted && with_ra {
                 input = crate::props::union::with_root_attrs(input, &ra);
+            }
+            // character data outside the root element (the document's outermost element is still the one <svg>)
+            if rooted {
+                match junk {
+                    1 => input.push_str("trailing text"),
+                    2 => input.push_str("\n &amp; more &#65;\n"),
+                    3 => input = format!("lead {input}"),
+                    4 => input.push_str("<![CDATA[x]]>"),
+                    _ => {}
+                }
             }
             Case { input, cfg, rooted: Some(rooted), namespaced: false, fam: "hostile".into() }
         })
